@@ -2,6 +2,7 @@ import F3.Proofs.CodecBytes
 import F3.Proofs.CodecMerkle
 import F3.Proofs.CodecPayload
 import F3.Proofs.CodecCbor
+import F3.Proofs.CodecAlloc
 import F3.Gen.Schema
 import Mathlib.Logic.Equiv.List
 /-!
@@ -16,8 +17,10 @@ Hash functions are parameters. `HashOK H` (keccak-256) and `CidHashOK B` (blake2
 collision-free, 32-byte output, (keccak) never the zero digest. `tree_inj_or_collision` gives the
 collision-extraction form that needs no such hypothesis.
 
-Runtime sub-claim NOT proved here (validated by the malformed stream of `h_codec` only): the Go
-decoders and zstd neither panic nor allocate beyond `Schema.allocBound` on arbitrary input.
+Runtime sub-claim NOT proved here (validated by the malformed stream of `h_codec` only): that the
+*Go* decoders and zstd do not panic and that the Go allocator's measured total stays below
+`Schema.allocBound`. What is proved is the model-level counterpart (`decode_alloc_bounded`): the
+`make` requests of the decoder model, which mirrors the generated code's check-then-allocate order.
 -/
 namespace F3.Props.C14
 open F3.Codec F3.Merkle F3.Payload F3.Cbor
@@ -204,6 +207,19 @@ theorem decode_accepts_only_within_limits (s : Schema) (hwf : s.wf = true) (b : 
     (h : decode s b = .ok (v, rest)) : Value.within s v = true :=
   decode_ok_within s hwf b v rest h
 
+/-- Allocation, model level: on *any* input (accepted, truncated, oversized, garbage) the requests of
+the decoder (`allocReq`: every `make` of the generated code, placed after its limit check) sum to at
+most `allocPerByte · |input| + staticPrealloc`: they are backed by consumed input or are one of the
+finitely many limit-checked buffers. -/
+theorem decode_alloc_bounded (s : Schema) (hwf : s.wf = true) (b : Bytes) :
+    allocReq s b ≤ s.allocPerByte * b.length + s.staticPrealloc :=
+  allocReq_le s hwf s.allocPerByte (Nat.le_refl _) b
+
+/-- On accepted input nothing is allocated that the consumed bytes do not pay for. -/
+theorem decode_alloc_backed (s : Schema) (hwf : s.wf = true) (b : Bytes) (v : Value) (r : Bytes)
+    (h : decode s b = .ok (v, r)) : allocReq s b + s.allocPerByte * r.length ≤ s.allocPerByte * b.length :=
+  alloc_backed s hwf s.allocPerByte (Nat.le_refl _) b v r h
+
 /-- The facts extracted from the working tree are consistent: every generated codec has the same
 limits on the encoding side, on the decoding side and in the struct tag; struct, encoder and decoder
 list the fields in the same order; nothing in the generated code was left unmapped; `ECChain` goes
@@ -217,6 +233,13 @@ theorem schema_table_wf :
 theorem roundtrip_every_type (name : String) (s : Schema) (hmem : (name, s) ∈ Gen.Schema.table)
     (v : Value) (b rest : Bytes) (h : encode s v = some b) : decode s (b ++ rest) = .ok (v, rest) :=
   F3.Cbor.decode_encode s (schema_table_wf.1 (name, s) hmem) v b rest h
+
+/-- … and for each of them the oracle's allocation bound (`Schema.allocBound`) dominates what the model
+decoder can request. -/
+theorem alloc_bound_every_type (name : String) (s : Schema) (hmem : (name, s) ∈ Gen.Schema.table) (b : Bytes) :
+    allocReq s b ≤ s.allocBound b.length := by
+  have := decode_alloc_bounded s (schema_table_wf.1 (name, s) hmem) b
+  unfold Schema.allocBound; omega
 
 /-- … and on each of them the documented limits are the enforced ones. -/
 theorem documented_is_enforced (name : String) (s : Schema) (hmem : (name, s) ∈ Gen.Schema.table) :
